@@ -20,10 +20,13 @@ INV = ["ConventionsCompose", "ExactEqualsEigenvalueAverage", "Normalised", "Supp
 
 
 def to_steps(prog):
-    return [{"name": s["name"], "k": s["k"], "qs": s["qs"], "kind": "builtin", "nc": 0} for s in prog]
+    return [{"name": "RY", "k": s["k"], "qs": s["qs"], "kind": "ctrl", "nc": 1} if s["name"] == "CRY" else {"name": s["name"], "k": s["k"], "qs": s["qs"], "kind": "builtin", "nc": 0} for s in prog]
 
 
 def check_case(ctx, c):
+    import warnings
+
+    warnings.simplefilter("ignore", RuntimeWarning)  # numpy's matmul warns spuriously on some complex inputs; results are compared exactly below
     from orquestra.quantum.measurements import Measurements
     from orquestra.quantum.operators import PauliSum, PauliTerm
     from orquestra.quantum.runners.symbolic_simulator import SymbolicSimulator
@@ -34,6 +37,21 @@ def check_case(ctx, c):
     desc = cc.describe(prog, n)
     circ = cc.circuit_real(prog, n)
     psi = vec(c["psi"])
+    # one more view: simulate with a parameter left symbolic, substitute afterwards
+    par = [i for i, s_ in enumerate(prog) if cc.is_parametric(s_)]
+    if par:
+        import sympy
+
+        th = sympy.Symbol("theta")
+        for i in (par[0], par[-1]):
+            csym = cc.circuit_real(prog, n, symbol_at=i, symbol=th)
+            try:
+                wsym = SymbolicSimulator(seed=ctx.seed).get_wavefunction(csym).bind({th: prog[i]["k"][0] * math.pi / 2})
+                amps = np.asarray(wsym.amplitudes, dtype=complex).reshape(-1)
+                if not close(amps, psi):
+                    out.append(("symbolic-then-bind", "%s with the angle of operation %d symbolic, bound afterwards: amplitudes %s, specification %s" % (desc, i, np.round(amps, 6).tolist(), np.round(psi, 6).tolist())))
+            except Exception as ex:
+                out.append(("symbolic-then-bind:raises", "%s with the angle of operation %d symbolic: %s: %s" % (desc, i, type(ex).__name__, str(ex)[:200])))
     probs = [ring(p).real for p in c["probs"]]
     tuples = [tuple(t) for t in c["tuples"]]
     support = {tuples[i] for i, p in enumerate(probs) if p > 1e-12}
@@ -93,7 +111,7 @@ def check_case(ctx, c):
 
 def run(ctx):
     quick = ctx.tier == "quick"
-    ctx.bounds = {"basis": "all X-subset circuits on 1..4 qubits", "super": "all circuits of <= %d gates over {X,H,RY(pi/2),S,CNOT} on 1..3 qubits" % (2 if quick else 3), "Z operators": "every subset of the register"}
+    ctx.bounds = {"basis": "all X-subset circuits on 1..4 qubits", "super": "all circuits of <= %d gates over {X,H,RY(pi/2),S,CNOT,c-RY(pi/2)} on 1..3 qubits" % (2 if quick else 3), "Z operators": "every subset of the register"}
     cases = []
     for mode, mq, ml in (('"basis"', 4, 9), ('"super"', 3, 2 if quick else 3)):
         res = ctx.tlc("Views", constants=dict(MaxQ=mq, MaxLen=ml, Mode=mode, Emitting=True), invariants=INV, action_constraints=["Emit"], view="ViewNoGm", coverage=False, timeout=3000)
